@@ -20,6 +20,10 @@ Idx == blk * BS + off + 1
 SeqToSet(s) == { s[i] : i \in 1..Len(s) }
 ModeKind(m) == IF m \in {"call", "ccall"} THEN "call" ELSE "fallback"
 
+\* the handler name class i of the chain should end up with; a mix-in derives from
+\* Expression only, so it inherits nothing
+WantName(L, nb, c, i) == IF c.chain[i].mix THEN EffName(<< L[nb + i] >>, 1) ELSE EffName(L, nb + i)
+
 JudgeRec(rec) ==
     LET c == rec.case
         user == c.ty = "user"
@@ -33,7 +37,7 @@ JudgeRec(rec) ==
         \* clause "name": the handler name every user class ended up with
         badName == IF ~user THEN 0
                    ELSE LET L == Lineage(obj)
-                            bad == { i \in 1..Len(c.chain) : rec.names[i] # EffName(L, nb + i) }
+                            bad == { i \in 1..Len(c.chain) : rec.names[i] # WantName(L, nb, c, i) }
                         IN IF bad = {} THEN 0 ELSE CHOOSE i \in bad : \A j \in bad : i <= j
         tCall == Target(obj, Impl, "call")
         tFall == Target(obj, Impl, "fallback")
@@ -46,7 +50,7 @@ JudgeRec(rec) ==
        ELSE IF badName # 0
        THEN [v |-> "name", pos |-> badName, deco |-> c.chain[badName].deco,
              own |-> c.chain[badName].own # "", got |-> rec.names[badName],
-             want |-> EffName(Lineage(obj), nb + badName)]
+             want |-> WantName(Lineage(obj), nb, c, badName)]
        ELSE IF bad # {}
        THEN LET j == CHOOSE j \in bad : \A j2 \in bad : j <= j2 IN
             [v |-> vs[j], run |-> j, mode |-> Runs[j].mode,
